@@ -10,6 +10,7 @@ import (
 	"flag"
 	"fmt"
 	"os"
+	"runtime/debug"
 	"strconv"
 	"time"
 
@@ -22,6 +23,8 @@ func main() {
 		fmt.Println("usage: gotsmc check|replay|list ...")
 		os.Exit(2)
 	}
+	// the explorers allocate many short-lived objects on 16 workers; memory is plentiful
+	debug.SetGCPercent(1000)
 	switch os.Args[1] {
 	case "list":
 		for _, id := range engine.AllIDs() {
